@@ -129,7 +129,7 @@ PROPS["C15"] = {
     "bounds": {"quick": "Router histories depth<=4 (depth 4 with transactions on); other alphabets at their quick bounds under a per-part deadline", "thorough": "Router histories depth 5; other alphabets with longer deadlines"},
     "assumptions": ["legality of a history is decided by the scene model in harness/c15_router.cpp from the documented preconditions only", "uninitialised reads are caught where they reach a sanitizer check (bool/enum loads, pattern-filled locals) or a library assertion; there is no MemorySanitizer pass", "parts that hit their deadline report exhaustive:false"],
     "parts": [
-        SAN("router_histories", "c15_router.cpp", [], 150, 1800),
+        SAN("router_histories", "c15_router.cpp", [], 240, 2400),
         SAN("cola_api", "c15_cola_api.cpp", [], 60, 900),
         SAN("dialect_api", "c15_dialect_api.cpp", [], 60, 900),
         SAN("vpsc", "c01_vpsc.cpp", ["--prop", "C01"], 12, 300, 10),
